@@ -204,7 +204,7 @@ func expectedCharts(reps []*wreport) map[string]int {
 func TestVerifC13(t *testing.T) {
 	const check = "C13.worker"
 	res := verifrt.NewResult(check)
-	res.Rule = "per case: 1-6 consecutive days with 0-40 stored reports each (0-3 programs with bucketed counters, duplicate X within and across days, a few reports just under the 100 KiB upload limit through long stack names or fields), merged through the real /merge handler and charted through /chart for the whole range, sub-ranges and a range containing a day that was never merged; the same set is stored twice more in different creation orders and charted 3 times in one process. Oracle: merged object has one JSON line per stored object decoding to the stored report; NumReports = reports in range; every partition datum = number of distinct X carrying that (program, chart, bucket), zero data are really zero, omitted charts really empty; chart bytes identical across orders and repetitions; missing day => 404 and no chart object. distinct = distinct report sets; non-trivial = >= 2 reports"
+	res.Rule = "per case: 1-6 consecutive days with 0-40 stored reports each (0-3 programs with bucketed counters, duplicate X within and across days, a few reports just under the 100 KiB upload limit through long stack names or fields), merged through the real /merge handler and charted through /chart for the whole range, sub-ranges and a range containing a day that was never merged; after that a stored report is replaced under the same name (usually by a much smaller one), sometimes another arrives, and the day is merged and the range charted again (twice, restoring the set in between); the same set is stored twice more in different creation orders and charted 3 times in one process. Oracle: merged object has one JSON line per stored object decoding to the stored report; NumReports = reports in range; every partition datum = number of distinct X carrying that (program, chart, bucket), zero data are really zero, omitted charts really empty; chart bytes identical across orders and repetitions; missing day => 404 and no chart object. distinct = distinct report sets; non-trivial = >= 2 reports"
 	base := vtmp("c13-")
 	defer os.RemoveAll(base)
 	n := verifrt.Scale(150, 4000)
@@ -258,42 +258,7 @@ func TestVerifC13(t *testing.T) {
 			ok := true
 			for d := 0; d < ndays && ok; d++ {
 				ds := dayStr(day0 + int64(d))
-				st, body := e.get("/merge/?date=" + ds)
-				if st != 200 {
-					res.Violate("merge-failed", fmt.Sprintf("merge of %s answered %d: %.200s", ds, st, body), rp)
-					ok = false
-					break
-				}
-				mb, err := os.ReadFile(filepath.Join(e.root, "merged", ds+".json"))
-				if err != nil {
-					res.Violate("merge-no-object", err.Error(), rp)
-					ok = false
-					break
-				}
-				lines := bytes.Split(bytes.TrimRight(mb, "\n"), []byte("\n"))
-				if len(mb) == 0 {
-					lines = nil
-				}
-				if len(lines) != len(byDay[ds]) {
-					res.Violate("merge-line-count", fmt.Sprintf("day %s: %d stored reports, %d merged lines", ds, len(byDay[ds]), len(lines)), rp)
-					ok = false
-					break
-				}
-				want := map[string]bool{}
-				for _, r := range byDay[ds] {
-					b, _ := json.Marshal(r)
-					want[string(canonJSON(b))] = true
-				}
-				for _, l := range lines {
-					if len(l) > 64*1024 {
-						res.Hit("merged-line>64KiB")
-					}
-					if !want[string(canonJSON(l))] {
-						res.Violate("merge-line-content", fmt.Sprintf("day %s: a merged line does not equal any stored report: %.300s", ds, l), rp)
-						ok = false
-						break
-					}
-				}
+				ok = mergeAndJudge(res, e, ds, byDay[ds], rp)
 			}
 			if !ok {
 				e.close()
@@ -365,6 +330,82 @@ func TestVerifC13(t *testing.T) {
 					}
 				}
 			}
+			if ok && order == 0 && len(all) > 0 {
+				// the set of stored reports changes after a day was merged (the
+				// worker re-merges each of the last days daily): a report is
+				// uploaded again under the same week and X with a different,
+				// often much smaller, body and new reports arrive; merging and
+				// charting again must reflect the stored set only, not what an
+				// earlier merge left behind
+				for round := 0; round < 2 && ok; round++ {
+					victim := all[rnd.Intn(len(all))]
+					ds := victim.Week
+					repl := genWReport(rnd, ds, nil)
+					repl.X = victim.X
+					if rnd.Intn(3) > 0 {
+						repl.Programs = nil
+					}
+					var nd []*wreport
+					for _, r := range byDay[ds] {
+						if r != victim {
+							nd = append(nd, r)
+						}
+					}
+					nd = append(nd, repl)
+					if rnd.Intn(2) == 0 {
+						extra := genWReport(rnd, ds, nil)
+						dup := false
+						for _, r := range nd {
+							dup = dup || r.X == extra.X
+						}
+						if !dup {
+							nd = append(nd, extra)
+							e.store(extra)
+						}
+					}
+					e.store(repl)
+					var nall []*wreport
+					for d := 0; d < ndays; d++ {
+						if dd := dayStr(day0 + int64(d)); dd == ds {
+							nall = append(nall, nd...)
+						} else {
+							nall = append(nall, byDay[dd]...)
+						}
+					}
+					res.Hit("re-merge-after-replacement")
+					ok = mergeAndJudge(res, e, ds, nd, rp)
+					if !ok {
+						break
+					}
+					st, body := e.get(q)
+					if st != 200 {
+						res.Violate("chart-failed", fmt.Sprintf("chart %s after a re-merge answered %d: %.300s", q, st, body), rp)
+						ok = false
+						break
+					}
+					name := start + "_" + end + ".json"
+					if ndays == 1 {
+						name = start + ".json"
+					}
+					if cb, err := os.ReadFile(filepath.Join(e.root, "charted", name)); err == nil {
+						judgeChart(res, cb, nall, rp)
+					}
+					// restore the original set for the other storage orders
+					byDayTmp := nd
+					_ = byDayTmp
+					for _, r := range nd {
+						keep := false
+						for _, o := range byDay[ds] {
+							keep = keep || o == r
+						}
+						if !keep {
+							os.Remove(filepath.Join(e.root, "uploaded", fmt.Sprintf("%s/%g.json", r.Week, r.X)))
+						}
+					}
+					e.store(victim)
+					ok = mergeAndJudge(res, e, ds, byDay[ds], rp)
+				}
+			}
 			e.close()
 			if !ok {
 				break
@@ -383,10 +424,50 @@ func TestVerifC13(t *testing.T) {
 			res.Sample(map[string]any{"case": i, "days": ndays, "reports": len(all), "first_day": dayStr(day0)})
 		}
 	}
-	res.Require("merged-line>64KiB", "duplicate-X", "missing-day", "sub-range", "semver-equal-versions")
+	res.Require("re-merge-after-replacement", "merged-line>64KiB", "duplicate-X", "missing-day", "sub-range", "semver-equal-versions")
 	if err := res.Write(); err != nil {
 		t.Fatal(err)
 	}
+}
+
+// mergeAndJudge merges day ds through the handler and compares the merged
+// object with the reports stored for that day.
+func mergeAndJudge(res *verifrt.Result, e *wenv, ds string, stored []*wreport, rp map[string]any) bool {
+	st, body := e.get("/merge/?date=" + ds)
+	if st != 200 {
+		res.Violate("merge-failed", fmt.Sprintf("merge of %s answered %d: %.200s", ds, st, body), rp)
+		return false
+	}
+	mb, err := os.ReadFile(filepath.Join(e.root, "merged", ds+".json"))
+	if err != nil {
+		res.Violate("merge-no-object", err.Error(), rp)
+		return false
+	}
+	lines := bytes.Split(bytes.TrimRight(mb, "\n"), []byte("\n"))
+	if len(mb) == 0 {
+		lines = nil
+	}
+	if len(lines) != len(stored) {
+		res.Violate("merge-line-count", fmt.Sprintf("day %s: %d stored reports, %d merged lines", ds, len(stored), len(lines)), rp)
+		return false
+	}
+	want := map[string]int{}
+	for _, r := range stored {
+		b, _ := json.Marshal(r)
+		want[string(canonJSON(b))]++
+	}
+	for _, l := range lines {
+		if len(l) > 64*1024 {
+			res.Hit("merged-line>64KiB")
+		}
+		k := string(canonJSON(l))
+		if want[k] == 0 {
+			res.Violate("merge-line-content", fmt.Sprintf("day %s: a merged line does not equal any (not yet matched) stored report: %.300s", ds, l), rp)
+			return false
+		}
+		want[k]--
+	}
+	return true
 }
 
 func uniq(xs []float64) map[float64]bool {
